@@ -34,7 +34,7 @@ ASSUMPTIONS = [
     "is accepted there; TrueType boxes and aggregates are exact",
     "default rounding only; SOURCE_DATE_EPOCH pinned (head.modified is rewritten on every save)",
 ]
-NONVACUITY = ["resave_lazy_equal", "resave_full_equal", "hmtx_raw_decoded", "bearings_checked",
+NONVACUITY = ["pre_fonts_judged", "pre_os2_supplementary", "resave_lazy_equal", "resave_full_equal", "hmtx_raw_decoded", "bearings_checked",
               "vertical_cases", "vorg_checked", "enumerated_sequences", "post3_cases",
               "equal_tail_runs", "empty_glyphs", "composite_glyphs_tt", "os2_char_index_checked"]
 
@@ -110,6 +110,10 @@ def gen(rng, idx, tier):
     for g in glyphs:
         if g["width"] < 0:
             g["width"] = 0
+    if rng.random() < 0.25:
+        cands = [g for g in glyphs if g["name"] != ".notdef"]
+        if cands:
+            rng.choice(cands)["unicodes"].append(rng.choice([0x10000, 0x1F600, 0x10FFFF]))
     info = {"unitsPerEm": 1000, "familyName": "T", "styleName": "R"}
     vertical = rng.random() < 0.45
     if vertical:
@@ -125,11 +129,27 @@ def gen(rng, idx, tier):
                 g["verticalOrigin"] = rng.choice([700, 910.5, 0])
     lib = {}
     fmt = rng.choice(["ttf", "otf", "otf", "cff2"])
+    if fmt == "ttf" and stratum == "default":
+        if rng.random() < 0.08:
+            stratum = "tt_empty_component"
+        else:
+            # keep clear of the listed fontTools finding: no component whose base has no points
+            for _ in range(6):
+                pairs = empty_base_components(glyphs)
+                if not pairs:
+                    break
+                for g, i in reversed(pairs):
+                    del g["components"][i]
     if rng.random() < 0.25 and fmt != "otf":
         lib["com.github.googlei18n.ufo2ft.keepGlyphNames"] = False
     opts = {}
     if fmt != "ttf":
         opts["optimizeCFF"] = 2 if stratum == "iso_adobe_prefix" else rng.choice([0, 1, 2])
+        if opts["optimizeCFF"] == 2 and stratum == "default":
+            if rng.random() < 0.12:
+                stratum = "lone_point_subroutinised"
+            else:
+                strip_lone_points(glyphs)   # keep clear of the listed cffsubr finding
         if fmt == "cff2":
             opts["cffVersion"] = 2
     else:
@@ -181,8 +201,7 @@ def true_bounds(cycles):
     curve_x, curve_y = [], []
     for start, segs in cycles:
         cur = start
-        if segs:
-            xs.append(cur[0]); ys.append(cur[1])
+        xs.append(cur[0]); ys.append(cur[1])
         for s in segs:
             if s[0] == "l":
                 xs.append(s[1][0]); ys.append(s[1][1])
@@ -201,6 +220,131 @@ def true_bounds(cycles):
 
 def near(stored, true, tol=0.5 + 1e-6):
     return abs(stored - true) <= tol
+
+
+# ---------------------------------------------------------------- compiled (unsaved) font
+
+def glyph_boxes(tt):
+    from fontTools.pens.recordingPen import RecordingPen
+    order = tt.getGlyphOrder()
+    boxes = {}
+    if "glyf" in tt:
+        glyf = tt["glyf"]
+        for n in order:
+            g = glyf[n]
+            if g.numberOfContours == 0:
+                boxes[n] = None
+                continue
+            coords, _, _ = g.getCoordinates(glyf)
+            if len(coords) == 0:
+                boxes[n] = None
+                continue
+            xs = [c[0] for c in coords]
+            ys = [c[1] for c in coords]
+            boxes[n] = (min(xs), min(ys), max(xs), max(ys))
+    else:
+        gs = tt.getGlyphSet()
+        for n in order:
+            rec = RecordingPen()
+            gs[n].draw(rec)
+            cyc = R.recording_to_cycles(rec.value)
+            boxes[n] = true_bounds(cyc) if cyc else None
+    return boxes
+
+
+def snapshot_pre(tt):
+    """Values as ufo2ft computed them, read from the compiled TTFont BEFORE it is saved."""
+    order = tt.getGlyphOrder()
+    hhea, head = tt["hhea"], tt["head"]
+    snap = {
+        "is_tt": "glyf" in tt, "order": list(order), "boxes": glyph_boxes(tt),
+        "hmtx": {n: tuple(tt["hmtx"][n]) for n in order},
+        "hhea": {k: getattr(hhea, k) for k in ("advanceWidthMax", "minLeftSideBearing",
+                                               "minRightSideBearing", "xMaxExtent",
+                                               "numberOfHMetrics")},
+        "head": (head.xMin, head.yMin, head.xMax, head.yMax),
+        "os2": (tt["OS/2"].usFirstCharIndex, tt["OS/2"].usLastCharIndex),
+    }
+    if "vmtx" in tt and "vhea" in tt:
+        vhea = tt["vhea"]
+        snap["vmtx"] = {n: tuple(tt["vmtx"][n]) for n in order}
+        snap["vhea"] = {k: getattr(vhea, k) for k in ("advanceHeightMax", "minTopSideBearing",
+                                                      "minBottomSideBearing", "yMaxExtent",
+                                                      "numberOfVMetrics")}
+    return snap
+
+
+def judge_pre(snap, bump):
+    """ufo2ft's own derived values against the glyph data of the compiled font: TrueType exact,
+    CFF within 1/2 of the true extremum (nearest-integer boxes, DESIGN 4.6)."""
+    out = []
+    is_tt = snap["is_tt"]
+    ok = (lambda s, t: abs(s - t) <= (0.5 + 1e-6 if not is_tt else 0.5 + 1e-6))
+    # TrueType composites have fractional transformed points, so 1/2 applies there too; simple
+    # TrueType glyphs have integer points, for which |s - t| <= 1/2 means equality.
+    order, boxes, hm = snap["order"], snap["boxes"], snap["hmtx"]
+    advs = [hm[n][0] for n in order]
+    lsbs, rsbs, exts = [], [], []
+    for n in order:
+        b = boxes[n]
+        if b is None:
+            if hm[n][1] != 0:
+                out.append({"mech": "pre_lsb_empty_glyph", "detail": {"glyph": n, "lsb": hm[n][1]}})
+            continue
+        if not ok(hm[n][1], b[0]):
+            out.append({"mech": "pre_lsb", "detail": {"glyph": n, "lsb": hm[n][1], "xMin": b[0]}})
+        lsbs.append(b[0])
+        rsbs.append(hm[n][0] - b[2])
+        exts.append(b[2])
+    bump("pre_fonts_judged")
+    hh = snap["hhea"]
+    exp = {"advanceWidthMax": max(advs) if advs else 0,
+           "minLeftSideBearing": min(lsbs) if lsbs else 0,
+           "minRightSideBearing": min(rsbs) if rsbs else 0,
+           "xMaxExtent": max(exts) if exts else 0}
+    for k, t in exp.items():
+        good = hh[k] == t if k == "advanceWidthMax" else ok(hh[k], t)
+        if not good:
+            out.append({"mech": "pre_hhea_" + k, "detail": {"stored": hh[k], "recomputed": t}})
+    nl = hh["numberOfHMetrics"]
+    if not (1 <= nl <= len(order)) or any(a != advs[nl - 1] for a in advs[nl - 1:]):
+        out.append({"mech": "pre_numberOfHMetrics", "detail": {"stored": nl, "advances": advs}})
+    elif nl > 1 and advs[nl - 2] == advs[nl - 1]:
+        bump("pre_long_metrics_not_minimal")
+    nb = [b for b in boxes.values() if b is not None]
+    union = ((min(b[0] for b in nb), min(b[1] for b in nb), max(b[2] for b in nb),
+              max(b[3] for b in nb)) if nb else (0, 0, 0, 0))
+    if not all(ok(s, t) for s, t in zip(snap["head"], union)):
+        out.append({"mech": "pre_head_bbox", "detail": {"stored": list(snap["head"]),
+                                                        "union": list(union)}})
+    if "vmtx" in snap:
+        vm, vh = snap["vmtx"], snap["vhea"]
+        hs = [vm[n][0] for n in order]
+        if vh["advanceHeightMax"] != (max(hs) if hs else 0):
+            out.append({"mech": "pre_vhea_advanceHeightMax", "detail": {
+                "stored": vh["advanceHeightMax"], "recomputed": max(hs)}})
+        nl = vh["numberOfVMetrics"]
+        if not (1 <= nl <= len(order)) or any(a != hs[nl - 1] for a in hs[nl - 1:]):
+            out.append({"mech": "pre_numberOfVMetrics", "detail": {"stored": nl, "heights": hs}})
+        # tsb + yMax is the glyph's vertical origin: bottom bearing and extent follow from it
+        bsbs, yext, tsbs = [], [], []
+        for n in order:
+            b = boxes[n]
+            if b is None:
+                continue
+            tsb = vm[n][1]
+            tsbs.append(tsb)
+            bsbs.append(vm[n][0] - tsb - (b[3] - b[1]))
+            yext.append(tsb + (b[3] - b[1]))
+        expv = {"minTopSideBearing": min(tsbs) if tsbs else 0,
+                "minBottomSideBearing": min(bsbs) if bsbs else 0,
+                "yMaxExtent": max(yext) if yext else 0}
+        okv = (lambda s, t: abs(s - t) <= 1.0 + 1e-6)    # two rounded box edges are involved
+        for k, t in expv.items():
+            good = vh[k] == t if k == "minTopSideBearing" else okv(vh[k], t)
+            if not good:
+                out.append({"mech": "pre_vhea_" + k, "detail": {"stored": vh[k], "recomputed": t}})
+    return out
 
 
 # ---------------------------------------------------------------- main
@@ -233,6 +377,27 @@ def run(case):
     except Exception:  # noqa: BLE001
         return {"status": "violated", "counters": counters, "violations": [
             {"mech": "compile_exception", "detail": {"trace": traceback.format_exc()[-2500:]}}]}
+    try:
+        pre = snapshot_pre(tt)      # ufo2ft's own values: fontTools recomputes several on save
+    except Exception:  # noqa: BLE001
+        return {"status": "violated", "counters": counters, "violations": [
+            {"mech": "compiled_font_unreadable", "detail": {
+                "trace": traceback.format_exc()[-2500:]}}]}
+    keep_names = spec["lib"].get("com.github.googlei18n.ufo2ft.keepGlyphNames", True)
+    cps_all = [cp for g in spec["glyphs"] for cp in g.get("unicodes", [])]
+    exp_os2 = ((min(min(cps_all), 0xFFFF), min(max(cps_all), 0xFFFF)) if cps_all
+               else (0xFFFF, 0xFFFF))
+    if keep_names and (fmt == "ttf" or case["opts"].get("optimizeCFF", 2) < 2):
+        # (a first index above 0xFFFF cannot be stored; ufo2ft leaves the raw minimum in the
+        # unsaved object and fontTools clamps it on save - both are accepted for the object)
+        if pre["os2"] != exp_os2 and pre["os2"] != ((min(cps_all) if cps_all else 0xFFFF), exp_os2[1]):
+            violations.append({"mech": "pre_os2_char_index", "detail": {
+                "stored": list(pre["os2"]), "expected": list(exp_os2)}})
+        if cps_all and max(cps_all) > 0xFFFF:
+            bump("pre_os2_supplementary")
+        # otherwise post-processing already saved / reloaded the font (cffsubr, name dropping) and
+        # the in-memory values are fontTools' recomputed ones, judged below
+        violations.extend(judge_pre(pre, bump))
     try:
         b1 = io.BytesIO()
         tt.save(b1)
@@ -311,9 +476,9 @@ def run(case):
         for n in order:
             rec = RecordingPen()
             gs[n].draw(rec)
+            # every stored point counts, including contours that consist of a single point (the
+            # same convention as TrueType header boxes): only 'no points at all' is an empty glyph
             cyc = R.recording_to_cycles(rec.value)
-            cyc = [(s, R.clean_cycle(s, segs)) for s, segs in cyc]
-            cyc = [(s, segs) for s, segs in cyc if segs]
             boxes[n] = true_bounds(cyc) if cyc else None
     for n in order:
         if boxes[n] is None:
@@ -370,12 +535,15 @@ def run(case):
         # hhea / head of a CFF font are recomputed by fontTools at save time from the true
         # charstring bounds rounded OUTWARDS (floor/ceil), hmtx keeps ufo2ft's nearest-integer
         # bearings: any integer within one unit of the true extremum is a consistent value
+        # (rsb and extent combine a nearest-rounded bearing with an outward-rounded width: < 2)
         chk = (lambda s, t: s == t) if is_tt else (lambda s, t: near(s, t, 1.0))
+        chk2 = (lambda s, t: s == t) if is_tt else (lambda s, t: near(s, t, 2.0))
         if lsbs:
-            for field, stored, true in (("minLeftSideBearing", hhea.minLeftSideBearing, min(lsbs)),
-                                        ("minRightSideBearing", hhea.minRightSideBearing, min(rsbs)),
-                                        ("xMaxExtent", hhea.xMaxExtent, max(exts))):
-                if not chk(stored, true):
+            for field, stored, true, ck in (
+                    ("minLeftSideBearing", hhea.minLeftSideBearing, min(lsbs), chk),
+                    ("minRightSideBearing", hhea.minRightSideBearing, min(rsbs), chk2),
+                    ("xMaxExtent", hhea.xMaxExtent, max(exts), chk2)):
+                if not ck(stored, true):
                     violations.append({"mech": "hhea_" + field, "detail": {"stored": stored,
                                                                            "recomputed": true}})
         else:
@@ -447,10 +615,12 @@ def run(case):
                     violations.append({"mech": "vhea_advanceHeightMax", "detail": {
                         "stored": vhea.advanceHeightMax, "recomputed": max(hs)}})
             if tsbs and all(n in glyphs for n in order):
-                for field, st, true in (("minTopSideBearing", vhea.minTopSideBearing, min(tsbs)),
-                                        ("minBottomSideBearing", vhea.minBottomSideBearing, min(bsbs)),
-                                        ("yMaxExtent", vhea.yMaxExtent, max(yext))):
-                    if not chk(st, true):
+                chk2 = (lambda s, t: s == t) if is_tt else (lambda s, t: near(s, t, 2.0))
+                for field, st, true, ck in (
+                        ("minTopSideBearing", vhea.minTopSideBearing, min(tsbs), chk),
+                        ("minBottomSideBearing", vhea.minBottomSideBearing, min(bsbs), chk2),
+                        ("yMaxExtent", vhea.yMaxExtent, max(yext), chk2)):
+                    if not ck(st, true):
                         violations.append({"mech": "vhea_" + field, "detail": {
                             "stored": st, "recomputed": true}})
             # vmtx raw decode
@@ -515,16 +685,59 @@ def run(case):
             "counters": counters, "nontrivial": n_out >= 2}
 
 
+LONE_MECHS = {"lsb", "tsb", "lsb_empty_glyph", "tsb_empty_glyph", "hhea_minLeftSideBearing",
+              "hhea_minRightSideBearing", "hhea_xMaxExtent", "vhea_minTopSideBearing",
+              "vhea_minBottomSideBearing", "vhea_yMaxExtent", "head_bbox", "cff_fontbbox"}
+
+
+def has_lone_point(case):
+    """Some glyph's resolved outline contains a zero-extent contour: a single point, or several
+    points that all coincide."""
+    glyphs = {g["name"]: g for g in case["ufo"]["glyphs"]}
+    for n in glyphs:
+        for pts, _ in R.resolve(glyphs, n):
+            if len({(p[0], p[1]) for p in pts}) == 1:
+                return True
+    return False
+
+
+def empty_base_components(glyphs_list):
+    """(glyph, component index) pairs whose base glyph resolves to no points at all."""
+    glyphs = {g["name"]: g for g in glyphs_list}
+    out = []
+    for g in glyphs_list:
+        for i, c in enumerate(g["components"]):
+            if c["base"] in glyphs and not R.resolve(glyphs, c["base"]):
+                out.append((g, i))
+    return out
+
+
+TT_BOX_MECHS = {"glyf_header_box", "lsb", "tsb", "lsb_empty_glyph", "tsb_empty_glyph", "head_bbox",
+                "hhea_minLeftSideBearing", "hhea_minRightSideBearing", "hhea_xMaxExtent",
+                "vhea_minTopSideBearing", "vhea_minBottomSideBearing", "vhea_yMaxExtent"}
+
+
+def strip_lone_points(glyphs):
+    for g in glyphs:
+        g["contours"] = [c for c in g["contours"] if len({(p[0], p[1]) for p in c}) > 1]
+
+
 def classify(v, case):
     tr = v["detail"].get("trace", "")
     names = [g["name"] for g in case["ufo"]["glyphs"]]
     if ".notdef" not in names:
         names = [".notdef"] + names
-    if (v["mech"] == "save_exception" and "AttributeError" in tr and "charset" in tr
+    if (v["mech"] in ("save_exception", "compiled_font_unreadable") and "AttributeError" in tr and "charset" in tr
             and case["fmt"] == "otf" and case["opts"].get("optimizeCFF", 2) >= 2):
         # glyph order is a prefix of the predefined ISOAdobe charset
         if sorted(names) == sorted(ISO_PREFIX[:len(names)]):
             return "cffsubr_predefined_charset_unsavable"
+    if (v["mech"] in LONE_MECHS and case["fmt"] in ("otf", "cff2")
+            and case["opts"].get("optimizeCFF", 2) >= 2 and has_lone_point(case)):
+        return "cffsubr_drops_single_point_contours_after_metrics"
+    m = v["mech"][4:] if v["mech"].startswith("pre_") else v["mech"]
+    if case["fmt"] == "ttf" and m in TT_BOX_MECHS and empty_base_components(case["ufo"]["glyphs"]):
+        return "fonttools_composite_box_includes_offset_of_empty_component"
     if (case["stratum"] == "notdef_codepoint"
             and v["mech"] in ("resave_full_differs", "os2_char_index")):
         nd = [g for g in case["ufo"]["glyphs"] if g["name"] == ".notdef"]
